@@ -37,6 +37,8 @@ type engIn struct {
 	// code runs (a document built in Go rather than decoded from JSON): what an array contains does not depend on
 	// whether two of its elements are the same object.
 	ShareEqual bool `json:"share_equal,omitempty"`
+	// Callbacks: an error handler and a completion callback are installed (they must not change what a query returns)
+	Callbacks bool `json:"callbacks,omitempty"`
 	ModelDoc map[string]any `json:"model_doc,omitempty"`
 	ModelQ   *Stmt          `json:"model_q,omitempty"`
 }
@@ -103,6 +105,9 @@ func observeEngine(in engIn) (Observed, error) {
 	var opts []genql.QueryOption
 	if in.Wrapped {
 		opts = append(opts, genql.Wrapped())
+	}
+	if in.Callbacks {
+		opts = append(opts, genql.UnReportedErrors(func(error) {}), genql.CompletedCallback(func() {}))
 	}
 	doc := deepCopy(in.Doc).(map[string]any)
 	if in.IntKind != "" {
@@ -201,7 +206,18 @@ func anySlice(s []any) any {
 }
 
 func mkCase(doc map[string]any, q *Stmt, tags []string, nontrivial bool) Case {
-	return Case{Input: engIn{Doc: doc, Q: q, SQL: q.SQL()}, Tags: tags, Nontrivial: nontrivial, Key: q.SQL() + "|" + fmt.Sprint(doc)}
+	sql := q.SQL()
+	in := engIn{Doc: doc, Q: q, SQL: sql}
+	// every seventh query text (by a hash of the text) runs with callbacks installed
+	h := 0
+	for i := 0; i < len(sql); i++ {
+		h = h*31 + int(sql[i])
+	}
+	if (h&0x7fffffff)%7 == 0 {
+		in.Callbacks = true
+		tags = append(append([]string{}, tags...), "options:callbacks")
+	}
+	return Case{Input: in, Tags: tags, Nontrivial: nontrivial, Key: sql + "|" + fmt.Sprint(doc)}
 }
 
 // ---------- shared table generator ----------
@@ -491,6 +507,20 @@ func genC01(r *Rand, tier string) []Case {
 			c.Key += "|" + intKind
 		}
 		out = append(out, c)
+	}
+	// long tables: the filter keeps exactly the rows that satisfy the predicate, wherever they sit
+	lsizes := []int{300, 4099}
+	if tier == "thorough" {
+		lsizes = []int{65, 257, 300, 1025, 4099, 5003}
+	}
+	for _, n := range lsizes {
+		for _, p := range []*Expr{Cmp("=", Col("n1"), Num(3)), And(Cmp(">=", Col("n2"), Num(4)), Not(Cmp("=", Col("s1"), Str("ab")))),
+			{K: "in", A: Col("n2"), Items: []*Expr{Num(1), Num(7), Num(10)}}, {K: "is", Op: "NULL", A: Col("k")}} {
+			if n > 1000 && tier != "thorough" && p.K != "and" {
+				continue // quick tier: one predicate on the longest table
+			}
+			out = append(out, mkCase(map[string]any{"t": bigRows(n)}, &Stmt{From: &From{K: "table", Path: []string{"t"}}, Items: []Item{{E: Col("id")}}, Where: p}, []string{"long-table", fmt.Sprintf("rows:%d", n)}, true))
+		}
 	}
 	// LIKE over letters outside ASCII whose two cases differ (also in UTF-8 length): value and pattern in different cases
 	families := [][]string{{"\u0130stanbul", "istanbul", "ISTANBUL"}, {"\u212Aelvin", "kelvin", "KELVIN", "Kelvin"}, {"10 k\u2126", "10 k\u03c9", "10 K\u03a9"},
